@@ -67,7 +67,26 @@ def judge (n : Nat) (impl : String) (curS fixS : String) (curAl fixAl : List All
         else "ok"
       { model := curS ++ s!" alloc={sumReq curAl}", spec := sp }
 
-def stepParse (initS hex impl : String) : DrvOut :=
+/-- capped child: address space limited to (current + 1 GiB).  Requests ≥ 1.25 GiB must kill it, requests
+< 768 MiB must not; in between either may happen. -/
+def capLo : Nat := 805306368
+def capHi : Nat := 1342177280
+
+def knownAllocCrash : String :=
+  "KNOWN declared-size-alloc a size field of the file is used for make() before it is compared with the file: the process dies when that much address space is not available (child capped at +1 GiB)"
+
+def judgeX (n : Nat) (impl : String) (curS fixS : String) (curAl fixAl : List Alloc) (curPanics : Bool) : DrvOut :=
+  let mx := maxReq curAl
+  if impl == "crash alloc" then
+    if mx ≥ capLo then { model := impl, spec := knownAllocCrash }
+    else { model := curS ++ s!" alloc={sumReq curAl}", spec := "FAIL child process ran out of memory, not explained by the model" }
+  else if mx ≥ capHi then
+    -- the current code would have died: only the fixed behaviour explains a normal answer
+    let r := judge n impl fixS fixS fixAl fixAl false
+    if r.model == impl then r else { model := "crash alloc", spec := r.spec }
+  else judge n impl curS fixS curAl fixAl curPanics
+
+def stepParse (capped : Bool) (initS hex impl : String) : DrvOut :=
   match Hex.decode hex with
   | none => { model := "bad-op" }
   | some f =>
@@ -77,24 +96,27 @@ def stepParse (initS hex impl : String) : DrvOut :=
     let lib := refLib io.res
     let c := parseSegment cur lib f
     let x := parseSegment fixed lib f
-    judge f.length impl (fmtParse c.1) (fmtParse x.1) c.2 x.2 (c.1 == .panicDiv)
+    (if capped then judgeX else judge) f.length impl (fmtParse c.1) (fmtParse x.1) c.2 x.2 (c.1 == .panicDiv)
 
-def stepDur (trS hex impl : String) : DrvOut :=
+def stepDur (capped : Bool) (trS hex impl : String) : DrvOut :=
   match Hex.decode hex, parseTracks trS with
   | some f, some tr =>
     let lib := refLib .other
     let c := durFromParts cur lib f tr
     let x := durFromParts fixed lib f tr
-    judge f.length impl (fmtDur c.1) (fmtDur x.1) c.2 x.2 false
+    (if capped then judgeX else judge) f.length impl (fmtDur c.1) (fmtDur x.1) c.2 x.2 false
   | _, _ => { model := "bad-op" }
 
 def fmtMux : MOut → String
   | .noPanic => "nopanic"
   | .panicNil => "panic nil"
 
-def stepMux (evS declS hex impl : String) : DrvOut :=
+def stepMux (capped : Bool) (evS declS hex impl : String) : DrvOut :=
   match parseEvents evS, declS.toNat? with
   | some evs, some decl =>
+    if capped && impl == "crash alloc" then
+      (if decl ≥ capLo then { model := impl, spec := knownAllocCrash }
+       else { model := "-", spec := s!"FAIL child process ran out of memory although the declared sample sizes sum to {decl}" }) else
     let n := (if hex == "-" then 0 else hex.length / 2)
     let c := muxWalk false false false evs
     let x := muxWalk true false false evs
@@ -170,9 +192,12 @@ def stepE2EGet (initS evS hex impl : String) : DrvOut :=
 
 def step (u : Unit) (op impl : String) : Unit × DrvOut :=
   match words op with
-  | ["parse", i, h] => (u, stepParse i h impl)
-  | ["dur", t, h] => (u, stepDur t h impl)
-  | ["mux", e, d, h] => (u, stepMux e d h impl)
+  | ["parse", i, h] => (u, stepParse false i h impl)
+  | ["dur", t, h] => (u, stepDur false t h impl)
+  | ["mux", e, d, h] => (u, stepMux false e d h impl)
+  | ["parsex", i, h] => (u, stepParse true i h impl)
+  | ["durx", t, h] => (u, stepDur true t h impl)
+  | ["muxx", e, d, h] => (u, stepMux true e d h impl)
   | "e2e" :: "list" :: _ :: rest => (u, stepE2EList rest impl)
   | ["e2e", "get", i, e, h] => (u, stepE2EGet i e h impl)
   | _ => (u, { model := "bad-op" })
